@@ -50,6 +50,8 @@ def plan(tier, seed):
         t.append(("random", cnt // 32, seed * 1000 + i))
     for i in range(16):
         t.append(("insitu", 12 if tier == "quick" else 120, seed * 1000 + i))
+    for i in range(8):
+        t.append(("inplace", 150 if tier == "quick" else 2500, seed * 1000 + i))
     if tier == "thorough":
         t.append(("repo-tests",))
     random.Random(seed).shuffle(t)
@@ -129,6 +131,36 @@ def work(task):
             run_matrix(p, A, f2)
         p.counters["random/structured matrices"] += cnt
         p.sample({"shape": [m, n], "dtype": str(A.dtype), "rows": gf2.to_rows(A)[:6]})
+    elif kind == "inplace":
+        # one caller-owned array object, edited in place between calls (single bits, rows, whole contents): every answer
+        # must belong to the contents at call time
+        _, cnt, seed = task
+        rng = np.random.default_rng(seed)
+        for i in range(cnt):
+            m, n = [(3, 3), (2, 3), (3, 2), (4, 6), (6, 4), (5, 5), (8, 12), (1, 4)][i % 8]
+            A = (rng.random((m, n)) < 0.5).astype(DTYPES[i % 4])
+            for step in range(5):
+                fn = ("rref", "rank", "null_space", "rref_and_basis_change", "rank")[(i + step) % 5]
+                p.evals += 1
+                ok, r = call(getattr(f2, fn), A)
+                if not ok:
+                    p.violate("f2.%s raises %s" % (fn, exc_name(r)), "f2.%s raised %s after an in-place edit of the caller's matrix" % (fn, exc_name(r)),
+                              {"shape": [m, n], "dtype": str(A.dtype), "rows": gf2.to_rows(A), "fn": fn})
+                for v in contracts.take():
+                    p.violate(v["contract"] + " " + v["tag"] + " (after in-place edit)", v["what"] + " - on a caller-owned array that was edited in place since the previous call",
+                              {"shape": [m, n], "dtype": str(A.dtype), "rows": gf2.to_rows(A), "fn": v["contract"], "inplace": True})
+                kind2 = int(rng.integers(4))
+                if kind2 == 0:
+                    A[int(rng.integers(m)), int(rng.integers(n))] ^= 1
+                elif kind2 == 1:
+                    A[int(rng.integers(m))] = (rng.random(n) < 0.5).astype(A.dtype)
+                elif kind2 == 2:
+                    A[:] = (rng.random((m, n)) < 0.5).astype(A.dtype)
+                else:
+                    A[:, int(rng.integers(n))] ^= 1
+            p.nontrivial(("inplace", seed, i))
+        p.counters["in-place edit sequences"] += cnt
+        p.sample({"stratum": "one array edited in place between calls", "shape": [m, n], "final rows": gf2.to_rows(A)})
     else:
         from htstabilizer.stabilizer_circuits import get_preparation_circuit
         from htstabilizer.stabilizer import Stabilizer
@@ -165,6 +197,8 @@ def replay(cj):
     contracts.install("htstabilizer")
     contracts.take()
     p = Partial()
+    if cj.get("inplace"):
+        return work(("inplace", 150, 1)).violations
     if cj.get("insitu"):
         return [{"key": "in-situ", "what": "in-situ witness; re-run the check"}] if work(("insitu", 40, 1)).violations else []
     m, n = cj["shape"]
